@@ -17,14 +17,17 @@ import (
 	"math/rand"
 	"os"
 	"os/exec"
+	"path/filepath"
 	"runtime"
 	"sort"
 	"strings"
 	"sync"
+	"sync/atomic"
 	"time"
 
 	"github.com/lmorg/murex/builtins/pipes/null"
 	"github.com/lmorg/murex/lang/pipes"
+	"github.com/lmorg/murex/lang/stdio"
 
 	"verifharness/coqlit"
 )
@@ -41,15 +44,21 @@ type c26Run struct {
 // c26Storm: ONE registry; K pipes created and closed at once, W workers running
 // create/get/dump/delete (every 5th round create/get/close on a fresh name) on
 // names of their own for Ms milliseconds across the expiry of the grace period.
+// Races: racing rounds run meanwhile — in each, W goroutines are released
+// together to CreatePipe the SAME absent name; exactly one may win.
 type c26Storm struct {
-	K  int `json:"k"`
-	W  int `json:"w"`
-	Ms int `json:"ms"`
+	K     int `json:"k"`
+	W     int `json:"w"`
+	Ms    int `json:"ms"`
+	Races int `json:"races"`
 }
 
 type c26StormObs struct {
 	Died       bool     `json:"died,omitempty"`
 	Unexpected bool     `json:"unexpected,omitempty"`
+	Races      int      `json:"races,omitempty"`
+	Dup        int      `json:"dup,omitempty"` // racing rounds without exactly one winner / one constructed pipe / a reachable pipe
+	FirstDup   string   `json:"firstdup,omitempty"`
 	Final      [][2]int `json:"final"`
 	Rounds     int      `json:"rounds,omitempty"`
 }
@@ -78,7 +87,7 @@ func init() { register("C26", c26{}) }
 var c26Names = []string{"null", "p", "q", "r"}
 var c26Types = map[string]int{"null": 0, "std": 1, "exposed": 2}
 
-const c26Grace = 2500 * time.Millisecond
+const c26Grace = 3000 * time.Millisecond
 
 // ---------------------------------------------------------------- generation
 
@@ -184,7 +193,7 @@ func (c26) Gen(seed int64, tier string, emit func(any)) {
 			c := c26Case{Src: src, Runs: cur}
 			if storms > 0 {
 				storms--
-				c.Storm = &c26Storm{K: 250 + sr.Intn(200), W: 4 + sr.Intn(5), Ms: 3000}
+				c.Storm = &c26Storm{K: 250 + sr.Intn(200), W: 4 + sr.Intn(5), Ms: 3000, Races: 1000 + sr.Intn(400)}
 			}
 			emit(c)
 			cur = nil
@@ -236,6 +245,7 @@ func c26Exec(run c26Run) c26RunObs {
 		var po c26Phase
 		po.Res = []string{}
 		t0 := time.Now()
+		closed := map[int]bool{}
 		for _, o := range ph {
 			res := func() (r string) {
 				defer func() {
@@ -271,20 +281,129 @@ func c26Exec(run c26Run) c26RunObs {
 				return "ok"
 			}()
 			po.Res = append(po.Res, res)
+			if o.K == "close" && res == "ok" {
+				closed[o.N] = true
+			}
 		}
-		if time.Since(t0) > 1800*time.Millisecond {
+		if time.Since(t0) > 1500*time.Millisecond {
 			obs.Slow = true
 		}
-		time.Sleep(c26Grace) // every delayed closePipe of this phase has fired by now
+		time.Sleep(c26Grace) // every delayed closePipe of this phase has fired by now ...
+		// ... unless the machine is so busy that a delayed goroutine has not been scheduled
+		// yet: give the closed names up to 6 more seconds to go, and have the registry
+		// looked at again on its own (Slow)
+		for limit := time.Now().Add(6 * time.Second); time.Now().Before(limit); {
+			still := false
+			for _, e := range c26Dump(&n) {
+				if closed[e[0]] {
+					still = true
+				}
+			}
+			if !still {
+				break
+			}
+			obs.Slow = true
+			time.Sleep(100 * time.Millisecond)
+		}
+		if obs.Slow {
+			time.Sleep(500 * time.Millisecond)
+		}
 		po.Dump = c26Dump(&n)
 		obs.Phases = append(obs.Phases, po)
 	}
 	return obs
 }
 
+// a pipe type whose constructor takes a while (like `file` on a slow disk or
+// `tcp-dial`): widens every window between CreatePipe's check and its insert
+const c26SlowType = "c26-slow"
+
+var (
+	c26SlowOnce sync.Once
+	c26SlowMade int32
+)
+
+func c26RegisterSlow() {
+	c26SlowOnce.Do(func() {
+		stdio.RegisterPipe(c26SlowType, func(string) (stdio.Io, error) {
+			atomic.AddInt32(&c26SlowMade, 1)
+			time.Sleep(2 * time.Millisecond)
+			return stdio.CreatePipe("std", "")
+		})
+	})
+}
+
+// c26Races: `rounds` racing rounds on registry n with w racers. Returns the
+// number of rounds that broke "names are unique among live pipes".
+func c26Races(n *pipes.Named, w, rounds int, tmp string) (dup int, first string) {
+	c26RegisterSlow()
+	for r := 0; r < rounds; r++ {
+		name := fmt.Sprintf("shared%d", r%2)
+		closeRound := r%10 == 9
+		if closeRound {
+			name = fmt.Sprintf("sharedc%d", r) // closed, not deleted: gone two seconds later
+		}
+		ty, arg := "std", ""
+		switch {
+		case r%8 == 3:
+			ty = c26SlowType
+		case r%40 == 7:
+			ty, arg = "file", filepath.Join(tmp, fmt.Sprintf("f%d", r))
+		}
+		atomic.StoreInt32(&c26SlowMade, 0)
+		var (
+			ok    int32
+			wg    sync.WaitGroup
+			start = make(chan struct{})
+		)
+		for i := 0; i < w; i++ {
+			wg.Add(1)
+			go func() {
+				defer wg.Done()
+				<-start
+				if n.CreatePipe(name, ty, arg) == nil {
+					atomic.AddInt32(&ok, 1)
+				}
+			}()
+		}
+		close(start)
+		wg.Wait()
+		why := ""
+		if ok != 1 {
+			why = fmt.Sprintf("round %d (%s): %d of %d racing CreatePipe calls succeeded", r, ty, ok, w)
+		} else if made := atomic.LoadInt32(&c26SlowMade); ty == c26SlowType && made != 1 {
+			why = fmt.Sprintf("round %d: %d pipes constructed for one name (orphans)", r, made)
+		} else if _, err := n.Get(name); err != nil {
+			why = fmt.Sprintf("round %d: the winner's pipe is not reachable by name", r)
+		}
+		var err1, err2 error
+		if closeRound {
+			err1 = n.Close(name)
+		} else {
+			err1 = n.Delete(name)
+			if err2 = n.Delete(name); err2 == nil && why == "" {
+				why = fmt.Sprintf("round %d: Delete on a missing pipe succeeded", r)
+			}
+		}
+		if err1 != nil && why == "" {
+			why = fmt.Sprintf("round %d: the winner could not remove its pipe", r)
+		}
+		if why != "" {
+			dup++
+			if first == "" {
+				first = why
+			}
+		}
+	}
+	return
+}
+
 func c26RunStorm(st c26Storm) c26StormObs {
 	var o c26StormObs
 	n := pipes.NewNamed()
+	tmp, _ := os.MkdirTemp("", "c26storm")
+	defer os.RemoveAll(tmp)
+	raceDone := make(chan struct{})
 	var unexpected, rounds int64
 	var mu sync.Mutex
 	bad := func() { mu.Lock(); unexpected++; mu.Unlock() }
@@ -299,6 +418,15 @@ func c26RunStorm(st c26Storm) c26StormObs {
 		}
 	}
 	deadline := time.Now().Add(time.Duration(st.Ms) * time.Millisecond)
+	go func() {
+		w := st.W
+		if w < 2 {
+			w = 2
+		}
+		o.Dup, o.FirstDup = c26Races(&n, w, st.Races, tmp)
+		o.Races = st.Races
+		close(raceDone)
+	}()
 	var wg sync.WaitGroup
 	for w := 0; w < st.W; w++ {
 		wg.Add(1)
@@ -342,6 +470,7 @@ func c26RunStorm(st c26Storm) c26StormObs {
 		}(w)
 	}
 	wg.Wait()
+	<-raceDone
 	time.Sleep(c26Grace)
 	o.Final = c26Dump(&n)
 	o.Unexpected = unexpected > 0
@@ -601,11 +730,14 @@ func (c26) Run(raw json.RawMessage) Result {
 	if c.Storm != nil {
 		so := "StormDied"
 		if !stormObs.Died {
-			so = coqlit.App("StormSurvived", coqlit.Bool(stormObs.Unexpected), c26CoqPairs(stormObs.Final))
+			so = coqlit.App("StormSurvived", coqlit.Bool(stormObs.Unexpected), coqlit.N(uint64(stormObs.Dup)), c26CoqPairs(stormObs.Final))
+			if stormObs.Dup > 0 {
+				class += "/race-lost-uniqueness"
+			}
 		} else {
 			class += "/storm-died"
 		}
-		storms = append(storms, coqlit.Record("s_pipes", coqlit.N(uint64(c.Storm.K)), "s_workers", coqlit.N(uint64(c.Storm.W)), "s_obs", so))
+		storms = append(storms, coqlit.Record("s_pipes", coqlit.N(uint64(c.Storm.K)), "s_workers", coqlit.N(uint64(c.Storm.W)), "s_races", coqlit.N(uint64(c.Storm.Races)), "s_obs", so))
 		summary["storm"] = stormObs
 		class += "+storm"
 		nontrivial = true
@@ -624,11 +756,18 @@ func (c26) Shrink(raw json.RawMessage) []any {
 		if len(c.Runs) > 0 {
 			return []any{c26Case{Src: c.Src, Runs: []c26Run{}, Storm: c.Storm}, c26Case{Src: c.Src, Runs: c.Runs}}
 		}
-		if c.Storm.K > 50 {
-			out = append(out, c26Case{Src: c.Src, Runs: []c26Run{}, Storm: &c26Storm{K: c.Storm.K / 2, W: c.Storm.W, Ms: c.Storm.Ms}})
+		st := *c.Storm
+		if st.K > 50 {
+			out = append(out, c26Case{Src: c.Src, Runs: []c26Run{}, Storm: &c26Storm{K: st.K / 2, W: st.W, Ms: st.Ms, Races: st.Races}})
 		}
-		if c.Storm.W > 1 {
-			out = append(out, c26Case{Src: c.Src, Runs: []c26Run{}, Storm: &c26Storm{K: c.Storm.K, W: c.Storm.W / 2, Ms: c.Storm.Ms}})
+		if st.W > 2 {
+			out = append(out, c26Case{Src: c.Src, Runs: []c26Run{}, Storm: &c26Storm{K: st.K, W: st.W / 2, Ms: st.Ms, Races: st.Races}})
+		}
+		if st.Races > 40 {
+			out = append(out, c26Case{Src: c.Src, Runs: []c26Run{}, Storm: &c26Storm{K: st.K, W: st.W, Ms: st.Ms, Races: st.Races / 2}})
+		}
+		if st.K > 0 && st.Races > 0 {
+			out = append(out, c26Case{Src: c.Src, Runs: []c26Run{}, Storm: &c26Storm{K: 0, W: st.W, Ms: 200, Races: st.Races}})
 		}
 		return out
 	}
